@@ -19,7 +19,7 @@ RULE = ("Each case = 6 generated arrival histories (200-6000 packets) for Remote
         "with random add/rate/reset against the brute-force model. Non-trivial = history with >=1 over-use decision and >=1 "
         "additive-increase step; distinct by phase script.")
 ASSUMPTIONS = [
-    "before the first measurement exists the controller works from its built-in 30 Mbit/s default: the two bounds are evaluated only once a measurement exists",
+    "m = the measurement handed to the rate controller at that update, or the latest one handed to it before (the controller only sees measurements at update times); before it has seen any it works from its built-in 30 Mbit/s default and the two bounds are not evaluated",
     "one REMB can name at most 255 SSRCs (8-bit count): histories with more SSRCs are a separate stratum",
 ]
 DECIDING = ["adds_checked", "estimates_checked", "bound_checks", "overuse_bound_checks", "window_checks"]
@@ -141,9 +141,18 @@ def run_history(rng, out, many_ssrcs=False):
         obs["additive"] += 1
         return real_add_inc(last_ms, now_ms)
 
+    real_update = est.rate_control.update
+
+    def update(bandwidth_usage, estimated_throughput, now_ms):
+        # the measurement the controller is given at this update (None = no measurement available right now)
+        obs["update_arg"] = estimated_throughput
+        obs["updates"] = obs.get("updates", 0) + 1
+        return real_update(bandwidth_usage, estimated_throughput, now_ms)
+
     est.incoming_bitrate.rate = rate
     est.detector.state = state
     est.rate_control._additive_rate_increase = add_inc
+    est.rate_control.update = update
     shadow = Shadow()
     seen = []
     seen_set = set()
@@ -155,6 +164,7 @@ def run_history(rng, out, many_ssrcs=False):
             seen.append(ssrc)
         obs["rates"].clear()
         obs["states"].clear()
+        obs["update_arg"] = "no-update"
         prev = est.rate_control.current_bitrate
         want_first = shadow.rate(a)
         shadow.add(a, size)
@@ -178,8 +188,8 @@ def run_history(rng, out, many_ssrcs=False):
                 if r1 != w1:
                     out.fail("measurement-window", f"packet {i}: incoming bitrate after adding is {r1}, brute force says {w1}", desc | {"at": i})
                     shadow = resync(est, a)
-                if r1 is not None:
-                    latest_m = r1
+        if obs["update_arg"] not in ("no-update", None):
+            latest_m = obs["update_arg"]  # m = the measurement used by the controller: this one, or the latest earlier one
         if res is None:
             continue
         out.counters["estimates_checked"] += 1
